@@ -342,7 +342,9 @@ class HistGen:
         free_all = self.free_cps(v, any_length=True)
         conn = [(n, cp) for (n, cp) in v.all_node_cps() if v.connected(cp)]
         shared = [(n, cp) for (n, cp) in free if v.nodes[cp][3] == 'SharedPort']
-        faults = ['bad_prop', 'bad_name', 'no_nstype', 'dup_id']
+        faults = ['bad_prop', 'bad_name', 'no_nstype']
+        if v.nodes:
+            faults += ['dup_id']
         if v.top_services():
             faults += ['dup_name']
         if conn:
